@@ -217,7 +217,8 @@ impl Driver {
                 let is_sig = matches!(w.inflight[&id].kind, MsgKind::Signature { .. });
                 let keep = f.dup > 0.0 && rng.chance(f.dup);
                 let damage = if is_sig && f.corrupt > 0.0 && rng.chance(f.corrupt) {
-                    Some(match rng.below(5) {
+                    Some(match rng.below(if w.sc.property == "C02" { 8 } else { 5 }) {
+                        5..=7 => Damage::SubsetIndexes(rng.next_u64()),
                         0 => Damage::SigBit(rng.below(4096) as usize),
                         1 => Damage::DropIndex,
                         2 => Damage::AddIndex(rng.below(w.sc.m + 2)),
